@@ -26,6 +26,119 @@ func runC01(c *Check, tier string) {
 	ruleR09c(c, "R01f")
 	// a restore must not leave files of an earlier build behind (they would end up in dependants' outputs)
 	ruleR06c(c, "R01g")
+	// the resolver the key composer relies on must hand back every dependency
+	ruleResolverTotal(c, "R01h")
+}
+
+// ruleResolverTotal (shared with C02/C15): a function of internal/dag that turns a node's dependency list
+// into a list of targets keeps every dependency — within its loop over the dependencies an iteration may
+// skip the append only because the dependency did not resolve to a target (nil / failed type test) or
+// because the very same target (membership keyed by its full label or identity) was already added.
+func ruleResolverTotal(c *Check, rule string) {
+	c.Rule(rule, "in every dag function that returns targets collected in a loop over a node's dependencies (GetDependencies / in-edges), an iteration skips the append only for a dependency that does not resolve to a target, or for a target already listed under its full label", 1)
+	getDeps := c.P.Func("dag", "DirectedTargetGraph", "GetDependencies")
+	for _, fn := range c.P.Funcs {
+		if !engine.InPackage(fn, "dag") || fn.Signature.Results().Len() == 0 {
+			continue
+		}
+		sl, ok := fn.Signature.Results().At(0).Type().Underlying().(*types.Slice)
+		if !ok || engine.TypeKey(sl.Elem()) != "model.Target" {
+			continue
+		}
+		for _, lp := range engine.LoopsOf(fn) {
+			r := lp.RangedValue()
+			if r == nil {
+				continue
+			}
+			overDeps := false
+			if call, _ := engine.CallOf(r); call != nil && getDeps != nil {
+				for _, f := range c.G.CalleesOf(call) {
+					if f == getDeps {
+						overDeps = true
+					}
+				}
+			}
+			if lk, ok := r.(*ssa.Lookup); ok && isLoadOfField(lk.X, fInEdges) {
+				overDeps = true
+			}
+			if !overDeps {
+				continue
+			}
+			// the append that builds the result
+			var app ssa.Instruction
+			for b := range lp.Body {
+				for _, in := range b.Instrs {
+					if call, ok := in.(*ssa.Call); ok {
+						if bi, ok := call.Call.Value.(*ssa.Builtin); ok && bi.Name() == "append" && types.Identical(call.Type(), fn.Signature.Results().At(0).Type()) {
+							app = call
+						}
+					}
+				}
+			}
+			key := "resolver-keeps-every-dependency/" + c.P.FuncName(fn)
+			if app == nil {
+				c.Unknown(rule, key, "the loop over the dependencies does not append to the returned list in a recognised way", c.P.Pos(fn.Pos()))
+				continue
+			}
+			if !lp.IsFullRange() {
+				c.Bad(rule, key, "the dependencies are not visited in a full range", c.P.InstrPos(app))
+				continue
+			}
+			allowed := engine.CutEdgesWhere(func(a engine.Atom) bool {
+				switch a.Op {
+				case "nil":
+					// the dependency did not resolve to a target
+					return engine.TypeKey(a.V.Type()) == "model.Target"
+				case "false":
+					if ex, ok := a.V.(*ssa.Extract); ok && ex.Index == 1 {
+						if ta, ok := ex.Tuple.(*ssa.TypeAssert); ok && engine.TypeKey(ta.X.Type()) == "model.BuildNode" {
+							return true
+						}
+					}
+				case "true":
+					// already listed: membership in a set keyed by the full label (or the target itself)
+					var lk *ssa.Lookup
+					switch x := a.V.(type) {
+					case *ssa.Lookup:
+						lk = x
+					case *ssa.Extract:
+						if l, ok := x.Tuple.(*ssa.Lookup); ok && x.Index == 1 {
+							lk = l
+						}
+					}
+					if lk == nil {
+						return false
+					}
+					return identifiesTarget(lk.Index)
+				}
+				return false
+			})
+			skip := lp.IterationCanSkip(engine.IsInstr(app), allowed)
+			c.Require(!skip, rule, key, "every dependency that resolves to a target is appended (duplicates of the same label aside)", "some dependencies are dropped by the resolver (a `continue` that is not 'did not resolve' or 'this very target is already listed'): their digests would not enter the dependant's key and their outputs would not be loaded", c.P.InstrPos(app))
+		}
+	}
+}
+
+// identifiesTarget: a set key that names one target — its whole label value, the label's String(), or the
+// target pointer itself; not a component of the label.
+func identifiesTarget(k ssa.Value) bool {
+	for _, o := range engine.Origins(k) {
+		if o == nil {
+			return false
+		}
+		switch engine.TypeKey(o.Type()) {
+		case "label.TargetLabel", "model.Target":
+			continue
+		}
+		if call, _ := engine.CallOf(o); call != nil {
+			n := engine.CalleeName(call)
+			if strings.HasSuffix(n, "label.TargetLabel).String") || strings.HasSuffix(n, ".GetLabel") {
+				continue
+			}
+		}
+		return false
+	}
+	return true
 }
 
 var changeHashKey = fk("model.Target", "ChangeHash")
